@@ -490,6 +490,23 @@ def auto_assert(body, t):
         iv = const_of(body, ix)
         if lv is not None and iv is not None and 0 <= iv < lv:
             return True
+        # `for i in 0..x.len() { x[i] }`: the index is the item of a Range that ends at the length of the very slice indexed
+        import re
+        from .paths import describe
+        bb = None
+        for i_, blk in enumerate(body.blocks):
+            if blk['term'] is t:
+                bb = i_
+        if bb is not None:
+            ld = describe(body, ln, depth=6, at=bb)
+            xd = describe(body, ix, depth=10, at=bb)
+            m = re.match(r'^(?:PtrMetadata|Len)\(&?(.+)\)$', ld)
+            m2 = re.search(r'Range<A>>::next\(&.*std::ops::Range::Range\([^,]+, core::slice::<impl \[T\]>::len\(&?(.+?)\)\)\)\) as Some\.0$', xd)
+            if m and m2 and m.group(1).strip('()*&') == m2.group(1).strip('()*&') and re.match(r'^\(?\*?[a-z_][a-z0-9_]*\)?$', m.group(1)):
+                name = m.group(1).strip('()*&')
+                params = [nm for l, nm in body.names.items() if 1 <= l <= body.arg_count]
+                if name in params:
+                    return True
     return False
 
 
